@@ -1,3 +1,35 @@
+(* Open finding F-C10-1, as a theorem about the faithful model of _SktimeForecaster.update:
+   the property demands that fit(y1); update(y2) behaves like a fit on y1 followed by y2, for every
+   history in which the data arrive in time order.  When no horizon has been given before, the
+   default update (update_params=True) raises - for EVERY kernel and all data - after the memory
+   and the cutoff have already moved. *)
 From Coq Require Import ZArith QArith List Bool Lia.
 Require Import SkV.Lib.Base SkV.C09.Model SkV.C10.Model.
-Lemma stub2 : True. Proof. exact I. Qed.
+Import ListNotations.
+Open Scope Z_scope.
+
+Lemma C10_refit_without_horizon_raises_refuted :
+  forall (leaf lpar : Type) (lfit : leaf -> series -> lpar) (l : leaf) (y1 y2 : series),
+    y2 <> [] ->
+    let r := do_update leaf lpar lfit l (fit_state leaf lpar lfit l y1 None) y2 true in
+    snd r = false /\ fcut lpar (fst r) = last_time y2 /\ fmem lpar (fst r) = cfirst y2 y1 /\
+    fpar lpar (fst r) = lfit l y1.
+Proof.
+  intros leaf lpar lfit l y1 y2 H. destruct y2 as [|p q]; [congruence|].
+  cbn. repeat split; reflexivity.
+Qed.
+
+(* a concrete witness in the semantics of the real NaiveForecaster(strategy="last"): the history
+   stops with ValueError at the update, while a forecaster fitted on y1 followed by y2 forecasts *)
+Lemma C10_refit_without_horizon_witness_refuted :
+  exists y1 y2,
+    (forall a b, In a (times y1) -> In b (times y2) -> a < b) /\
+    map (fun s => fst (fst (fst s))) (c_run LNaiveLast y1 None [OUpdate y2 true; OPredict (Some [1])])
+      = [BOk; BErr] /\
+    map (fun s => fst (fst (fst s))) (c_run LNaiveLast (y1 ++ y2) None [OPredict (Some [1])])
+      = [BOk; BPred [(4, 8 # 1)]].
+Proof.
+  exists [(0, 1 # 1); (1, 2 # 1); (2, 4 # 1)], [(3, 8 # 1)].
+  split; [|split; vm_compute; reflexivity].
+  cbn. intros a b Ha Hb. lia.
+Qed.
